@@ -184,6 +184,12 @@ def m12a(res, mod, tier):
                 diff = z3.Or([a != b for a, b in zip(val, chars)])
                 ok, model = exe.check(exe.base + q.pc + guards + [diff], want_model=True)
                 res.query('sat' if ok else 'unsat')
+                if not ok and tier == 'thorough' and len(res.coverage.get('cross_solver', {})) < 6 and len(val) > 1:
+                    from lib import smt
+                    try:
+                        res.coverage.setdefault('cross_solver', {})['M12a value L=%d #%d' % (L, nq)] = smt.cross_check(exe.base + q.pc + guards + [diff], 'unsat', timeout=60)
+                    except smt.SolverDisagreement as e:
+                        res.inconc('cross-solver: %s' % e)
                 if ok:
                     pending.append(('value', 'the literal denotes a different string', witness(model, chars)))
             nq += dec.nq
